@@ -319,6 +319,11 @@ def execute_agent(case):
                     out.fail('shutdown-aborts-peer-transfer', 'contact %d: the peer had started a transfer (SESS_INIT and its first segment on '
                              'their way) when shutdown() was called; it never completed: receive signals %s, state at shutdown %s (%s)'
                              % (con.index, fin, 'session-negotiating', desc))
+            if con.state == 'refused' and not hasattr(con.own_id, 'exc') and con.index not in case.get('hang', ()):
+                fin = [e for e in dbus_signals(con.hdl, 'send_bundle_finished') if e['args'][0] == str(con.own_id)]
+                if len(fin) != 1 or fin[0]['args'][2] == 'success':
+                    out.fail('shutdown-refused-transfer-report', 'contact %d: the peer refused the completely sent bundle after shutdown(); '
+                             'finished signals %s (%s)' % (con.index, [e['args'][2] for e in fin], desc))
             if con.state == 'transfer' and not hasattr(con.own_id, 'exc') and con.index not in case.get('hang', ()):
                 data = b''.join(bytes.fromhex(m['data']) for m in msgs if m['t'] == 'XFER_SEGMENT' and m['id'] == int(con.own_id))
                 fin = [e for e in dbus_signals(con.hdl, 'send_bundle_finished') if e['args'][0] == str(con.own_id)]
